@@ -126,7 +126,10 @@ class FlankString(AbstractValue):
 
     def abs_getitem(self, interp, idx):
         if isinstance(idx, slice):
-            return FlankString(self.items[idx])
+            part = self.items[idx]
+            if all(isinstance(x, str) for x in part):
+                return ''.join(part)            # the run itself: concrete text
+            return FlankString(part)
         if isinstance(idx, int):
             try:
                 return self.items[idx]
@@ -249,36 +252,47 @@ def _frame(model):
 
 
 def rule_flank_wired(ctx, rep):
+    """What the scanner records for a run is what the specification says about it: Delimiter(start, end, string),
+    constructed over every abstract neighbourhood, has open / close equal to "can open / can close emphasis" of
+    CommonMark 6.2 - however the constructor computes them."""
     model = ctx.model
-    rep.rule('R-FLANK-WIRED', 'Delimiter.__init__ stores is_opener/is_closer of its own run for * and _ runs')
+    rep.rule('R-FLANK-WIRED', 'Delimiter.__init__ records can-open / can-close of its own run as the specification defines them')
     cls = model.cls('core_tokens.Delimiter')
     rep.instance('R-FLANK-WIRED')
-    seen = {}
+    bad = {}
+    n = 0
+    for prev, nxt, ch, runlen in itertools.product(CLASSES, CLASSES, '*_', (1, 2)):
+        items = ([] if prev == 'EDGE' else [AbsChar(prev)]) + [ch] * runlen + ([] if nxt == 'EDGE' else [AbsChar(nxt)])
+        start = 0 if prev == 'EDGE' else 1
+        end = start + runlen
 
-    class Tok(AbstractValue):
-        def __init__(self, name, args):
-            self.name, self.args = name, args
-
-        def abs_truth(self, interp):
-            return True
-
-    for ch in '*_':
-        it = Interp(model)
-        it.reset_run(Oracle())
-        for fn in ('is_opener', 'is_closer'):
-            def hook(interp, fi, args, kwargs, fn=fn):
-                return Tok(fn, list(args))
-            it.func_hooks[model.func('core_tokens.' + fn).qualname] = hook
-        s = 'a' + ch * 2 + 'b'
-        obj = it.construct(cls, [1, 3, s], {})
-        for attr, fn in (('open', 'is_opener'), ('close', 'is_closer')):
-            v = obj.attrs.get(attr)
-            ok = isinstance(v, Tok) and v.name == fn and v.args == [1, 3, s]
-            rep.obligation('R-FLANK-WIRED', ok, {'delimiter': ch, 'attr': attr, 'value': repr(getattr(v, 'name', v))})
+        def run(oracle):
+            it = Interp(model)
+            it.reset_run(oracle)
+            try:
+                o = it.construct(cls, [start, end, FlankString(items)], {})
+                return tuple(('ret', bool(it.truth(o.attrs[a]))) if a in o.attrs else ('unset', None) for a in ('open', 'close'))
+            except Raised as r:
+                return (('raise', r.exc.kind),) * 2
+        got = [set(), set()]
+        for trace, res in enumerate_paths(run, max_paths=400):
+            got[0].add(res[0])
+            got[1].add(res[1])
+        for i, (attr, fname) in enumerate((('open', 'is_opener'), ('close', 'is_closer'))):
+            want = flanking.EXPECTED[fname](spec_cls(prev), spec_cls(nxt), ch)
+            ok = got[i] == {('ret', want)}
+            n += 1
+            rep.obligation('R-FLANK-WIRED', ok, {'attr': attr, 'before': prev, 'after': nxt, 'delimiter': ch * runlen, 'spec': want,
+                                                 'code': sorted(map(str, got[i]))})
             if not ok:
-                rep.find('R-FLANK-WIRED', 'core_tokens.Delimiter.__init__', 'self.%s' % attr,
-                         'Delimiter.%s is not %s(start, end, string) of the run' % (attr, fn),
-                         loc(model.unit_of(cls), cls.node))
+                bad.setdefault(attr, []).append((prev, nxt, ch * runlen, sorted(map(str, got[i])), want))
+    for attr, rows in sorted(bad.items()):
+        prev, nxt, run_, got_, want = rows[0]
+        rep.find('R-FLANK-WIRED', 'core_tokens.Delimiter.__init__', 'self.%s' % attr,
+                 'a %r run preceded by %s and followed by %s is recorded with %s = %s; CommonMark 0.30 6.2 requires %s '
+                 '(%d neighbourhoods differ)' % (run_, prev, nxt, attr, got_, want, len(rows)),
+                 loc(model.unit_of(cls), cls.node))
+    rep.floor('R-FLANK-WIRED', n, 200)
 
 
 class Mod3(AbstractValue):
@@ -712,7 +726,12 @@ def _make_delimiters(model, it, dels):
     objs = []
     for i, d in enumerate(dels):
         P = Aff.sym('p%d' % i)
-        objs.append(it.construct(dcls, [P, P.add(Aff({}, d['n'])), string], {}))
+        o = it.construct(dcls, [P, P.add(Aff({}, d['n'])), string], {})
+        if isinstance(o, Obj) and d['ch'] != '[':
+            # the stack under test prescribes what each run can do, however the constructor arrives at it
+            # (that it arrives at the specification's answer is R-FLANK-WIRED)
+            o.attrs['open'], o.attrs['close'] = d['open'], d['close']
+        objs.append(o)
     for f in ('is_opener', 'is_closer'):
         it.func_hooks.pop(model.func('core_tokens.' + f).qualname, None)
     return objs
